@@ -9,7 +9,7 @@ PROP = {
             "Families: uniform, normal, exponential, Maxwell-Boltzmann, chi-square (dof 0.5..400 incl. both sides of dof/2=100 and the singular densities dof<2), chi-bar-square "
             "(random weight vectors incl. the dof=0 atom), binomial (all trials 0..170, p incl. 0, 1 and 1e-12 from either), Poisson (means 1e-3..1e3, all counts 0..500), "
             "Poisson likelihoods (1..8 bins, with and without background), KDE (20..420 weighted points, windows 0.1..100, automatic and manual bandwidth)",
-    "floors": {"quick": {"cases": 10000, "distinct_nontrivial": 4000,
+    "floors": {"quick": {"cases": 27000, "distinct_nontrivial": 22000,
                          "clauses": {"normal-cdf-difference-is-integral-of-density": 4000, "chi-square-cdf-difference-is-integral-of-density": 6000,
                                      "chi-bar-square-cdf-difference-is-integral-of-density": 2000, "maxwell-boltzmann-cdf-difference-is-integral-of-density": 2000,
                                      "exponential-cdf-difference-is-integral-of-density": 1500, "uniform-cdf-difference-is-integral-of-density": 1500,
